@@ -586,6 +586,15 @@ func genParFacts() {
 		}
 		fmt.Fprintf(&o, "  ⟨%s, %s, %s, %s, %s, %v⟩%s\n", leanStr(m.typ), leanStr(m.method), leanStr(m.field), rw, leanStr(m.underMutex), m.concurrent, sep)
 	}
+	o.WriteString("]\n\n/-- reference-typed fields of the results of Copy-style methods of struct types -/\ndef copyFacts : List CopyFact := [\n")
+	cfs := copyFacts(p)
+	for i, c := range cfs {
+		sep := ","
+		if i == len(cfs)-1 {
+			sep = ""
+		}
+		fmt.Fprintf(&o, "  ⟨%s, %d, %s, %s, %v, %s⟩%s\n", leanStr(c.file), c.line, leanStr(c.fn), leanStr(c.field), c.fresh, leanStr(c.how), sep)
+	}
 	o.WriteString("]\n\nend Csvq.Gen\n")
 	fmt.Print(o.String())
 }
